@@ -521,13 +521,13 @@ package jsonpatch
 //@   ensures[C19] other-roots-do-not: wf(input) && kind(val(bytes(input))) != KArr ==> !result
 
 //@ func createObjectMergePatch
-//@   callsite[C19] getDiff#1 difference-of-the-two-decoded-documents: arg_a == originalDoc && arg_b == modifiedDoc
+//@   callsite[C19] getDiff#1 difference-of-the-two-decoded-documents: arg_a == *originalDoc && arg_b == *modifiedDoc
 //@   callsite[C19] Marshal#1 the-difference-is-what-is-returned: arg_v == dest
 //@   ensures[C19] rejects-ill-formed: !wf(originalJSON) || !wf(modifiedJSON) ==> err != nil && result.0 == nil
 //@   ensures[C19] rejects-non-objects: wf(originalJSON) && wf(modifiedJSON) && ((kind(val(bytes(originalJSON))) != KObj && kind(val(bytes(originalJSON))) != KNull) || (kind(val(bytes(modifiedJSON))) != KObj && kind(val(bytes(modifiedJSON))) != KNull)) ==> err != nil && result.0 == nil
 
 //@ func createArrayMergePatch
-//@   callsite[C19] createObjectMergePatch#1 element-by-element: arg_originalJSON == originalDocs[i] && arg_modifiedJSON == modifiedDocs[i]
+//@   callsite[C19] createObjectMergePatch#1 element-by-element: arg_originalJSON == (*originalDocs)[i] && arg_modifiedJSON == (*modifiedDocs)[i]
 //@   ensures[C19] rejects-ill-formed: !wf(originalJSON) || !wf(modifiedJSON) ==> err != nil && result.0 == nil
 //@   ensures[C19] rejects-different-lengths: wf(originalJSON) && wf(modifiedJSON) && kind(val(bytes(originalJSON))) == KArr && kind(val(bytes(modifiedJSON))) == KArr && jlen(val(bytes(originalJSON))) != jlen(val(bytes(modifiedJSON))) ==> err != nil && result.0 == nil
 
